@@ -26,7 +26,7 @@ RULE = ('(a) explicit-state BFS, case = (terminal state, token); non-trivial = t
 ASSUMPTIONS = ['token alphabet as listed in bounds; screens up to 3x4; "randomly on larger screens" is sampling and deliberately not done',
                'the emulator appends to ./log on unknown sequences: the check runs in /verif/.scratch']
 STATES_MEANING = 'distinct terminal states (grid, cursor, saved cursor, scroll region, FSM state, parameter stack, decoder state), deduplicated, summed over screens; plus one per chunk-independence partition'
-REQUIRED_FLAGS = {'two_terminals_interleaved': 1, 'cut_inside_escape': 1, 'cut_inside_multibyte': 1, 'degenerate_param': 1, 'truncated_sequence': 1,
+REQUIRED_FLAGS = {'malformed_or_other_multibyte_encoding': 1, 'two_terminals_interleaved': 1, 'cut_inside_escape': 1, 'cut_inside_multibyte': 1, 'degenerate_param': 1, 'truncated_sequence': 1,
                   'unknown_sequence': 1, 'scrolled': 1}
 
 ESC = '\x1b'
@@ -241,8 +241,11 @@ def path_to(parent, st):
 
 def chunk_check(term, path, maxcuts, acc, task, how, enc=None):
     """Feed ''.join(path) at once, then under every cut set; compare."""
-    text = ''.join(path)
-    data = text if how == 'str' else text.encode(enc)
+    if how == 'raw':
+        text, data = None, b''.join(path)        # byte strings given as they are (possibly malformed for the encoding)
+    else:
+        text = ''.join(path)
+        data = text if how == 'str' else text.encode(enc)
     term.fresh()
     try:
         term.t.write(data)
@@ -255,13 +258,15 @@ def chunk_check(term, path, maxcuts, acc, task, how, enc=None):
     # token boundaries (in units of data) to recognise cuts inside an escape sequence
     inner = set()
     pos = 0
-    for tok in path:
+    for tok in (path if how != 'raw' else []):
         ln = len(tok if how == 'str' else tok.encode(enc))
         if tok[0] == ESC:
             inner.update(range(pos + 1, pos + ln))
         pos += ln
     mb = set()
-    if how != 'str':
+    if how == 'raw':
+        mb.update(i for i in range(1, n) if data[i] >= 0x80 or data[i - 1] >= 0x80)
+    elif how != 'str':
         pos = 0
         for ch in text:
             ln = len(ch.encode(enc))
@@ -330,6 +335,17 @@ def run_chunk_bytes(task, acc):
         for p in paths + extra:
             chunk_check(term, p, task['cuts'], acc, task, 'bytes', enc)
             chunk_check(term, p, min(2, task['cuts']), acc, task, 'str')
+    # multi-byte encodings other than utf-8, and input that is malformed for the encoding (a truncated character
+    # followed by plain ASCII, a stray continuation byte): every cut, compared with feeding at once
+    for enc, raws in (('utf-8', [[b'ab\xe2\x82', b'xy'], [b'\xe9a', b'\x1b[1;1Hb'], [b'\xf0\x9f\x98A', b'\x80z']]),
+                      ('shift_jis', [['a\u3042b\u30a2'.encode('shift_jis')], ['\u3042'.encode('shift_jis'), b'\x1b[1;2H', '\uff71\u3042'.encode('shift_jis')]]),
+                      ('gbk', [['a\u4e2d\\b'.encode('gbk')]]),
+                      ('utf-16', [['a\u20acb'.encode('utf-16')]])):
+        term = Term(rows, cols, encoding=enc)
+        term.init = term.snap()
+        for p in raws:
+            chunk_check(term, p, task['cuts'], acc, task, 'raw', enc)
+            acc.flags['malformed_or_other_multibyte_encoding'] += 1
     acc.states += 1
 
 
@@ -460,8 +476,11 @@ def replay(spec):
     acc = Acc()
     term = Term(rows, cols, encoding=spec.get('enc') or 'latin-1')
     term.init = term.snap()
-    text = ''.join(spec['path'])
-    data = text if spec['how'] == 'str' else text.encode(spec['enc'])
+    if spec['how'] == 'raw':
+        data = b''.join(spec['path'])
+    else:
+        text = ''.join(spec['path'])
+        data = text if spec['how'] == 'str' else text.encode(spec['enc'])
     try:
         term.t.write(data)
         whole = term.snap()
